@@ -4,3 +4,4 @@ import MF.Model.Utf8
 import MF.Model.Token
 import MF.Model.Lexer
 import MF.Model.File
+import MF.Model.Split
